@@ -23,7 +23,7 @@ for p in props:
         'evidence_file': 'evidence/%s.json' % pid,
         'replay_cmd_template': './check %s --replay {path}' % pid,
         'engine': 'lean4-model+correspondence',
-        'level_claimed': {'category': 'proof', 'text': meta['text'], 'design_ref': meta.get('design_ref', 'DESIGN.md section 5, ' + pid)},
+        'level_claimed': {'category': 'proof', 'text': meta['text'] + (' ' + meta['source_derived'] if meta.get('source_derived') else ''), 'design_ref': meta.get('design_ref', 'DESIGN.md section 5, ' + pid)},
         'level_note': meta['note'],
         'technique': meta['technique'],
     })
